@@ -164,10 +164,101 @@ def r5_5(ctx):
     ctx.floor(rid, n, 120, "assertions, call sites and description reads with lazy-state obligations")
 
 
+DIMCHG = ("set_space_dimension", "add_universe_rows_and_columns", "add_unit_rows_and_space_dimensions", "remove_space_dimensions",
+          "remove_trailing_space_dimensions", "remove_higher_space_dimensions", "concatenate", "permute_space_dimensions",
+          "swap_space_dimensions", "add_universe_rows_and_space_dimensions", "shift_space_dimensions")
+
+
+def r5_7(ctx, fx):
+    rid = "R5.7"
+    ctx.rule(rid, "dim_kinds alignment: the vector dim_kinds describes, per dimension, the shape of whichever description is minimized. In every Grid member, on every path on which the space dimension of con_sys / gen_sys (or of a system passed in by reference) is changed, either dim_kinds is edited as well, or the object is replaced wholesale, or at the exit both `minimized` claims are known false (false edge of *_are_minimized() / *_are_up_to_date(), or cleared) — otherwise a later conversion reads kinds for dimensions that do not exist or misses existing ones")
+    n = 0
+    seen = set()
+    for f in fx.functions:
+        if f.clsn != "Grid" or f.flag("pattern") or not f.cfg or (f.relfile, f.line) in seen or f.kind in ("ctor", "dtor"):
+            continue
+        seen.add((f.relfile, f.line))
+        if f.name in ("ascii_load", "m_swap", "operator=", "OK"):
+            continue
+        # private helpers receive the two descriptions by reference; the systems a public member takes are user input
+        sysparams = set(p["n"] for p in f.params if ("Congruence_System &" in p["t"] or "Grid_Generator_System &" in p["t"]) and "const" not in p["t"]) \
+            if f.j.get("access") != "public" and not f.flag("static") else set()
+
+        def is_dimchg(x):
+            if x["k"] != "mcall" or f.call_name(x) not in DIMCHG or f.call_obj(x) is None:
+                return False
+            r = f.root(f.call_obj(x))
+            return r in (("this", "con_sys"), ("this", "gen_sys")) or (r[0] == "param" and len(r) == 2 and r[1] in sysparams)
+        if not any(is_dimchg(x) for x in f.walk()):
+            continue
+        n += 1
+        inst = "Grid::%s/%d" % (f.name, len(f.params))
+
+        def elem_effect(x, env):
+            if is_dimchg(x):
+                env = dict(env); env["chg"] = True
+            if x["k"] == "mcall" and f.call_obj(x) is not None:
+                r = f.root(f.call_obj(x))
+                nm = f.call_name(x)
+                if r == ("this", "dim_kinds") and not x.get("cconst"):
+                    env = dict(env); env["dk"] = True
+                elif r == ("this",):
+                    if nm in ("clear_congruences_minimized", "clear_congruences_up_to_date"):
+                        env = dict(env); env["cm"] = False
+                    elif nm in ("clear_generators_minimized", "clear_generators_up_to_date"):
+                        env = dict(env); env["gm"] = False
+                    elif nm in ("set_empty", "set_zero_dim_univ", "m_swap"):
+                        env = dict(env); env["dk"] = True
+                    elif nm in ("set_congruences_minimized",):
+                        env = dict(env); env["cm"] = True
+                    elif nm in ("set_generators_minimized",):
+                        env = dict(env); env["gm"] = True
+            if x["k"] in ("call", "mcall", "ocall"):
+                # dim_kinds handed to a routine that rebuilds it (simplify, conversion, swap)
+                for a, m in zip(f.call_args(x), x.get("pm", "")):
+                    if a is not None and m in "rp" and f.root(a) == ("this", "dim_kinds"):
+                        env = dict(env); env["dk"] = True
+                if x["k"] == "call" and f.call_name(x) == "swap" and any(f.root(a) == ("this",) for a in f.call_args(x) if a is not None):
+                    env = dict(env); env["dk"] = True
+            if x["k"] == "assign" and f.root(f.deref(x["c"][0])) == ("this", "dim_kinds"):
+                env = dict(env); env["dk"] = True
+            return env
+
+        def edge_effect(cond, taken, env):
+            cn = f.deref(cond)
+            pol = True
+            while cn is not None and cn["k"] == "unop" and cn.get("op") == "!":
+                pol = not pol
+                cn = f.deref(cn["c"][0])
+            if cn is not None and cn["k"] == "mcall" and (f.call_obj(cn) is None or f.root(f.call_obj(cn)) == ("this",)):
+                truth = taken if pol else not taken
+                nm = f.call_name(cn)
+                if nm == "congruences_are_minimized":
+                    env = dict(env); env["cm"] = truth
+                elif nm == "generators_are_minimized":
+                    env = dict(env); env["gm"] = truth
+                elif nm == "congruences_are_up_to_date" and not truth:
+                    env = dict(env); env["cm"] = False
+                elif nm == "generators_are_up_to_date" and not truth:
+                    env = dict(env); env["gm"] = False
+                elif nm == "marked_empty" and truth:
+                    env = dict(env); env["dk"] = True
+            return env
+        ex = flow.Explorer(f, elem_effect=elem_effect, edge_effect=edge_effect)
+        p = ex.find_path("ENTRY", lambda x: False, "EXIT",
+                         exit_ok=lambda env: (not env.get("chg")) or env.get("dk") or (env.get("cm") is False and env.get("gm") is False))
+        if p is None:
+            ctx.ok(rid, inst, f.where())
+        else:
+            ctx.violation(rid, inst, f.where(), "the dimension of a description changes on a path that leaves dim_kinds as it is while a `minimized` claim may stand: " + flow.render_path(f, p))
+    ctx.floor(rid, n, 6, "Grid members changing the dimension of a description")
+
+
 def run(ctx):
     ctx.explanation = ("C05 Grid lazy-status protocol as a flag typestate over all CFG paths; decides the protocol clause, not the lattice arithmetic")
     fx = ctx.extract(units())
     r5_1(ctx, fx)
+    r5_7(ctx, fx)
     fx2 = ctx.extract([F.lib_unit("Polyhedron_nonpublic.cc", name_re=r"Polyhedron::Polyhedron|operator="),
                        F.lib_unit("Polyhedron_public.cc", name_re=r"Polyhedron::(constraints|generators)$"),
                        F.lib_unit("Grid_public.cc", name_re=r"Grid::Grid|operator=|Grid::(congruences|grid_generators|minimized_)")])
